@@ -4,8 +4,8 @@
       on_cast / on_unop / on_binop / on_ternop / on_return with coerce, promote, get_common_type,
       check_condition, from a source expression (Spec.CExprSpec.cx) to the typed AST [texpr]
       (Cast and ImplicitCast are both TCast).  The two typing helpers exist in two variants [semv]:
-        sem_orig  : promote = always int, get_common_type = max by basic_ranks        (/repo today)
-        sem_c11   : the code of fixes/C01-common-type.diff (6.3.1.1p2 / 6.3.1.8 via sizeof)
+        sem_orig  : promote = always int, get_common_type = max by basic_ranks   (/repo before commit c83990b)
+        sem_c11   : the code since c83990b = fixes/C01-common-type.diff (6.3.1.1p2 / 6.3.1.8 via sizeof)
       tools/props/c01.py probes the real CSemantics and uses the matching variant.
    2. lowering (ppci/lang/c/codegenerator.py): [low] mirrors CCodeGenerator.gen_expr(rvalue=True) /
       gen_binop / gen_unop / gen_cast / gen_ternop / gen_condition / check_non_zero /
@@ -18,7 +18,7 @@
    3. [emit_fn] linearises the same trees into the exact ppci CFG (entry block with the allocas,
       blocks in creation order, phis, vids in print order) for `T f(T0 a0, ...) { return e; }`;
       the check compares it structurally with irimport(c_to_ir(...)) and runs it with IRSem. *)
-From PV Require Import Lib.Py Lib.Val Spec.CIntSpec Spec.CExprSpec Gen.ceval Model.CEval Model.CSema
+From PV Require Import Lib.Py Lib.Val Spec.CIntSpec Spec.CExprSpec Gen.ceval Model.CEval
                        Spec.IRSyntax Spec.IRSem.
 From Coq Require Import String.
 Open Scope Z_scope.
@@ -44,10 +44,12 @@ Definition ttyp (e : texpr) : ity :=
 Record semv := mk_semv { v_promote : ity -> ity;            (* type promote() coerces a promotable type to *)
                          v_common : ity -> ity -> ity }.    (* get_common_type *)
 
-(* /repo today *)
-Definition sem_orig : semv := mk_semv (fun _ => TInt) CSema.common_type.
+(* /repo before commit c83990b (kept for the historical _refuted theorems) *)
+(* max([t1, t2], key=rank): the first maximal element *)
+Definition orig_common_type (a b : ity) : ity := if basic_rank a <? basic_rank b then b else a.
+Definition sem_orig : semv := mk_semv (fun _ => TInt) orig_common_type.
 
-(* fixes/C01-common-type.diff *)
+(* the current code (commit c83990b = fixes/C01-common-type.diff) *)
 Definition c11_promote (c : cctx) (t : ity) : ity :=
   if negb (is_signed_m t) && (int_size c <=? sizeof c t) then TUInt else TInt.
 Definition c11_common (c : cctx) (a b : ity) : ity :=
@@ -457,6 +459,14 @@ Definition c_tree (sv : semv) (g : cgen) (te : tenv) (rt : ity) (e : cx) : irx :
   lower g (elab_ret sv te rt e).
 
 (* rendering of the typed AST for the correspondence with the real CSemantics output *)
+Definition unop_str (op : CIntSpec.unop) : string :=
+  match op with UNeg => "-" | UCompl => "~" | ULNot => "!" | UPlus => "+" end.
+Definition binop_str (op : CIntSpec.binop) : string :=
+  match op with
+  | BAdd => "+" | BSub => "-" | BMul => "*" | BDiv => "/" | BMod => "%" | BShl => "<<" | BShr => ">>"
+  | BAnd => "&" | BOr => "|" | BXor => "^" | BLt => "<" | BGt => ">" | BLe => "<=" | BGe => ">="
+  | BEq => "==" | BNe => "!=" | BLAnd => "&&" | BLOr => "||"
+  end.
 Definition tbop_str (o : tbop) : string :=
   match o with
   | OBin op => binop_str op | OComma => "," | OAssign => "="
